@@ -13,7 +13,7 @@ BOUNDED = {
     "C04": "numpy's result-dtype table, dtype matrix",
     "C05": "float / dtype matrix (`mean` is proved as sum / count over the callee contracts; float division uninterpreted)",
     "C06": "derived-vs-fresh comparison under every probe (representation independence end to end)",
-    "C07": "`sort`, `unique`, `diff` values end to end; float accumulate is the known finding",
+    "C07": "`sort`: that numpy's `lexsort` order by (row, value) sorts every row in place (keys, gather and geometry are proved); `unique`, `diff` values end to end; float accumulate is the known finding",
     "C08": "the constructor from a list of rows behind `concatenate(axis=1)` (the joined row of an arbitrary iteration is proved), `ragged_slice` on 1-D / 2-D inputs, element types other than the abstract one for the padded matrix",
     "C09": "float / bool column-sum values (`mean(axis=0)` is proved as sum / col_counts over the callee contracts)",
     "C10": "differential histories (the history relation itself)",
